@@ -170,8 +170,9 @@ def run(ck):
     hlines = ["%s | %s | random %d" % (proto, p, ck.seed * 6011 + k) for proto in ("tcp", "tcpb") for pi, p in enumerate(holes)
               for k in range((60 if thorough else 12) if proto == "tcp" else 6)]
     tc.run_cases(ck, hlines, "engine_hole", nontrivial_engine, **kw)
-    tc.run_dfs(ck, "tcp | " + holes[0], 1, 2000 if thorough else 200, "engine_hole_dfs0", nontrivial_engine, **kw)
-    tc.run_dfs(ck, "tcp | " + holes[1], 1 if not thorough else 2, 6000 if thorough else 400, "engine_hole_dfs1", nontrivial_engine, **kw)
+    # (every execution moves 8 MB through loopback and leaves half-open sockets behind: the explorations are kept short)
+    tc.run_dfs(ck, "tcp | " + holes[0], 1, 600 if thorough else 200, "engine_hole_dfs0", nontrivial_engine, **kw)
+    tc.run_dfs(ck, "tcp | " + holes[1], 1 if not thorough else 2, 1500 if thorough else 400, "engine_hole_dfs1", nontrivial_engine, **kw)
     hits = {}
     for nm in ("engine_hole", "engine_hole_dfs0", "engine_hole_dfs1"):
         fp = os.path.join(ck.work, nm + ".ndjson")
